@@ -3,7 +3,7 @@ from . import stackrun as S
 from . import monitors as M
 
 PLAN = [('restore', 10, 5), ('misuse', 5, 1)]
-MONITORS = [M.mon_restore, M.mon_one_outcome]
+MONITORS = [M.mon_restore, M.mon_one_outcome, M.mon_lifecycle]
 THEOREMS = "C18_restore_immediate, C18_restore_waits, C18_success_needs_next, C18_restore_success_iff, C18_timeout, C18_user_error, C18_user_error_result, C18_first_fatal_overrides, C18_credentials, C18_creds_latest"
 CORPUS = ['C18']
 
